@@ -389,11 +389,13 @@ def run_witness(u, scratch, failed_obligations, tier):
     tname = "verif_witness_" + u["unit"]
     env = dict(os.environ, CARGO_NET_OFFLINE="true", CARGO_TARGET_DIR=os.path.join(scratch, "target"), VERIF_TIER=tier, RUST_BACKTRACE="0")
     if w.get("append_to"):
-        # in-crate unit tests (private items): the witness module is appended to a source file of the scratch copy
-        tgt = os.path.join(copy, w["append_to"])
-        marker = "// ---- appended by /verif: " + tname
-        if marker not in open(tgt).read():
-            open(tgt, "a").write("\n" + marker + "\n" + open(os.path.join(u["_dir"], w["file"])).read())
+        # in-crate unit tests (private items): the witness modules are appended to source files of the scratch copy
+        pairs = [(w["file"], w["append_to"])] + [(a["file"], a["to"]) for a in w.get("also_append", [])]
+        for wf, to in pairs:
+            tgt = os.path.join(copy, to)
+            marker = "// ---- appended by /verif: " + tname + " " + wf
+            if marker not in open(tgt).read():
+                open(tgt, "a").write("\n" + marker + "\n" + open(os.path.join(u["_dir"], wf)).read())
         cmd = ["cargo", "test", "--offline", "--lib"] + w.get("cargo_args", []) + ["verif_witness", "--", "--test-threads", "8"]
     else:
         tdir = os.path.join(crate_dir, "tests")
